@@ -734,7 +734,52 @@ pub fn run_pcap_filtered(ctx: &mut Ctx) {
 }
 
 /// C18 accounting: tiny queues, concurrent dispatchers; counters vs outcomes vs results.
+/// `C18.shut`: dispatch calls made after `shutdown()` — every packet handed to a pool is either queued and
+/// analysed, or reported dropped AND counted in the drop statistics; that includes the ones refused because
+/// the pool is shutting down.
+pub fn run_shutdown_acct(ctx: &mut Ctx) {
+    let mut r = ctx.rng.fork();
+    let rounds = ctx.n(4, 40);
+    for _ in 0..rounds {
+        for kind in [Kind::Tcp, Kind::Http, Kind::Tls] {
+            let n = *r.pick(&[1usize, 2, 4]);
+            let pre = r.range(0, 6) as usize;
+            let post = r.range(1, 9) as usize;
+            let pool = match kind {
+                Kind::Tcp => {
+                    let (tx, rx) = mpsc::channel();
+                    std::mem::forget(rx);
+                    AnyPool::Tcp(huginn_net_tcp::WorkerPool::new(n, 256, 8, 2, tx, None, 1000, None).unwrap())
+                }
+                Kind::Http => {
+                    let (tx, rx) = mpsc::channel();
+                    std::mem::forget(rx);
+                    AnyPool::Http(huginn_net_http::WorkerPool::new(n, 256, 8, 2, tx, None, 1000, None).unwrap())
+                }
+                Kind::Tls => {
+                    let (tx, rx) = mpsc::channel();
+                    std::mem::forget(rx);
+                    AnyPool::Tls(huginn_net_tls::WorkerPool::new(n, 256, 8, 2, tx, 1000, None).unwrap())
+                }
+            };
+            let mut frames = |k: usize, base: u32, r: &mut Rng| -> Vec<Vec<u8>> {
+                (0..k).flat_map(|i| sentinel_frames(kind, net::v4(base + i as u32), r)).collect()
+            };
+            let pre_frames = frames(pre, 0x0c00_0000, &mut r);
+            let post_frames = frames(post, 0x0c10_0000, &mut r);
+            let q_pre = pre_frames.iter().filter(|f| pool.dispatch((*f).clone())).count();
+            pool.shutdown();
+            let q_post = post_frames.iter().filter(|f| pool.dispatch((*f).clone())).count();
+            let (d, x, _) = pool.stats();
+            let mut l = Line::op("C18.shut");
+            l.tok(kind.name()).usize(n).usize(pre_frames.len()).usize(post_frames.len());
+            ctx.emit(l.finish(&format!("qpre={} qpost={} d={} x={}", q_pre, q_post, d, x)));
+        }
+    }
+}
+
 pub fn run_acct(ctx: &mut Ctx) {
+    run_shutdown_acct(ctx);
     let mut r = ctx.rng.fork();
     let rounds = ctx.n(30, 400);
     for _ in 0..rounds {
